@@ -201,3 +201,7 @@ def check(P, R, tier):
     R.explanation = EXPLANATION
     R.assumptions = ["the store returns what was written under a key (C16)", "chain contiguity across commit calls rests on C01's safety argument"]
     rules(P, R)
+    # "shown a VALID QC": the certificate checks themselves (C04.S2: distinct members, stake >= quorum, signatures, genesis
+    # shortcut only for the exact genesis QC) are part of what makes b1 a certified child
+    from ..common import fold
+    fold(R, P, "c04", ("C04.S2",), "C05.K6", 20)
